@@ -1,3 +1,3 @@
 #!/bin/sh
 # cq.sh <target.vo> [timeout-seconds]: refresh _CoqProject/Makefile.coq and build one target under a timeout
-cd /verif/coq && python3 -c "import sys;sys.path.insert(0,'../tools');import vlib;vlib.coq_project()" && timeout ${2:-300} make -k -j8 -f Makefile.coq "$1" 2>&1 | grep -v "^WARNING conda" | tail -${3:-25}
+cd /verif/coq && python3 -c "import sys;sys.path.insert(0,'../tools');import vlib;vlib.coq_project()" && (ulimit -v 16000000; timeout ${2:-300} make -k -j8 -f Makefile.coq "$1") 2>&1 | grep -v "^WARNING conda" | tail -${3:-25}
